@@ -20,14 +20,14 @@ CHECKS = {
         "model_checking",
         "Every operator impl the API defines (about 120 Add/Sub/Mul/Neg impls over f64, &DecisionVariable, &Parameter, Linear, Quadratic, Polynomial, Function, "
         "incl. the macro-generated mixed and reversed ones, plus Sum/Product) is executed on every ordered pair of operand values from closed pools containing every "
-        "representation quirk (unsorted/repeated terms, lower/upper triangle, explicit zeros, absent linear part, every oneof variant) and from a pool with id extremes (0, 2^32+3 next to 3, u64::MAX); the result message is read back "
+        "representation quirk (unsorted/repeated terms, lower/upper triangle, explicit zeros, absent linear part, every oneof variant) from a pool with id extremes (0, 2^32+3 next to 3, u64::MAX) and from a pool of long operands (33 / 65 terms); the result message is read back "
         "through its public fields and must equal exact-rational polynomial arithmetic coefficient by coefficient; term iterators of operands and results must yield sorted ids summing to the polynomial.",
         "Trusted: num::BigRational and the harness readers. Quick tier traverses oversized pair grids with a fixed stride (recorded in evidence, exhaustive=false then); thorough covers the full grids. Unset-oneof Function operands are outside the alphabet (documented panic).",
         "bounded exhaustive enumeration of operator impl x operand pairs on the real code vs exact polynomial arithmetic",
     ),
     "C03": (
         "model_checking",
-        "Every function message of the C01 representation alphabet (quick: <= 2 terms; thorough: <= 3 terms, ~10^5 messages) x states over a value grid x every split of the state into fixed/remaining (2^3) x every ordered two-step split (3^3 assignments) through the real partial_evaluate impls (Function and the concrete types, Constraint, RemovedConstraint); "
+        "Every function message of the C01 representation alphabet (quick: <= 2 terms; thorough: <= 3 terms, ~10^5 messages) x states over a value grid x every split of the state into fixed/remaining (2^3) x every ordered two-step split (3^3 assignments), plus long functions (31..100 terms) under five fixed parts and a two-step split and small messages with ids 0 / 2^32+3 / u64::MAX, through the real partial_evaluate impls (Function and the concrete types, Constraint, RemovedConstraint); "
         "after each step: message polynomial == exact partial evaluation, no fixed id mentioned, returned id set between the non-zero-occurring and occurring fixed ids, evaluate(remainder) == exact value at the combined state, two steps == one step. "
         "Instances: product family (objective x active lists x removed x dependency none/single/chain) x in-bound states x all 2^4 splits x ordered two-step splits; structural comparison of every function and substituted_value, both orders and at-once compared, and the Solution of partial_evaluate+evaluate compared with the reference evaluator on the original at the combined state under every dependency-map order.",
         "Trusted: exact-rational Poly.partial, reference evaluator (refmodel/inst.rs). All values dyadic so comparison is bit-exact. Out-of-bound and incomplete states are C05's subject.",
@@ -35,7 +35,7 @@ CHECKS = {
     ),
     "C04": (
         "model_checking",
-        "(1) Function::substitute on a function family x all 8^4 replacement maps over four keys (constant, linear, linear mentioning another replaced id, quadratic, zero, identity, an unnormalised linear listing an id twice, absent) vs exact simultaneous composition. "
+        "(1) Function::substitute on a function family x all 8^4 replacement maps over four keys (constant, linear, linear mentioning another replaced id, quadratic, zero, identity, an unnormalised linear listing an id twice, absent) vs exact simultaneous composition; long functions (31..100 terms) under four replacement maps. "
         "(2) Instance::substitute on an instance family (variable lists in and out of id order; replaced variables unbounded, or bounded so that the replacement values fall outside) x first map x optional second map (chains) x states, under every iteration order of the dependency map (hook H1): every function compared as polynomial, dependency map compared, Solution compared with the original instance evaluated at the completed state; log_encode->substitute->evaluate on all bit patterns. "
         "(3) Explicit enumeration of ALL dependency graphs on n<=3 (quick) / n<=4 (thorough, 16.7M graphs) dependents, each summing any subset of {dependents incl. itself, a valued variable, a value-less variable}, x all n! iteration orders, through the real Instance::evaluate; oracle = Kahn topological evaluation: exact values when acyclic and grounded, Err otherwise; a watchdog turns a hang into a violation.",
         "Trusted: Poly.subst, Kahn oracle, hook H1 (sorts the bucket by key and applies the harness permutation; identity when unset). Instance-level replacements mention only remaining variables, as the property states.",
